@@ -51,6 +51,11 @@ var Templates = []string{
 	"attestsplit3", "txsplit", "refsplit", "balsplit", "newval", "newvalalive", "attestnew",
 	// the relayed transaction really matches the queued message (relayok publishes its hash); attestok: every validator proves it
 	"attestok",
+	// validator life cycle: validator 3 withdraws its whole stake (removed from staking when the unbonding period ends) and
+	// later joins again
+	"unbondall", "rejoin",
+	// evidence from validator 0 only (everybody else stays silent about a reported message)
+	"attest0",
 	// skyway
 	"send", "cancel", "batchest", "confirm", "batchclaim", "deposit", "lightsale", "claims2",
 	// tokenfactory
@@ -104,6 +109,18 @@ func (c *chain) latestDenom() string {
 		}
 	}
 	return "factory/" + creator + "/none"
+}
+
+// newest: a pigeon works on at most 30 messages of a queue per block, the newest first
+func newest(ms []consensustypes.QueuedSignedMessageI, err error) []consensustypes.QueuedSignedMessageI {
+	if err != nil {
+		return nil
+	}
+	sort.SliceStable(ms, func(i, j int) bool { return ms[i].GetId() > ms[j].GetId() })
+	if len(ms) > 30 {
+		ms = ms[:30]
+	}
+	return ms
 }
 
 // queue helpers --------------------------------------------------------------------------------
@@ -209,7 +226,7 @@ func (c *chain) tpl(name string) [][]byte {
 			var es []*consensustypes.MsgAddMessageGasEstimates_GasEstimate
 			for _, ch := range chains {
 				q := turnstoneQueue(ch)
-				ms, _ := ck.GetMessagesForGasEstimation(ctx, q, c.val(v).ValAddr)
+				ms := newest(ck.GetMessagesForGasEstimation(ctx, q, c.val(v).ValAddr))
 				for _, m := range ms {
 					es = append(es, &consensustypes.MsgAddMessageGasEstimates_GasEstimate{MsgId: m.GetId(), QueueTypeName: q, Value: uint64(21000 + 100*v), EstimatedByAddress: c.w.ethAddr[v].Hex()})
 				}
@@ -224,7 +241,7 @@ func (c *chain) tpl(name string) [][]byte {
 			var ss []*consensustypes.ConsensusMessageSignature
 			for _, ch := range chains {
 				q := turnstoneQueue(ch)
-				ms, _ := ck.GetMessagesForSigning(ctx, q, c.val(v).ValAddr)
+				ms := newest(ck.GetMessagesForSigning(ctx, q, c.val(v).ValAddr))
 				for _, m := range ms {
 					b, err := m.GetBytesToSign(e.App.AppCodec())
 					if err != nil {
@@ -243,7 +260,7 @@ func (c *chain) tpl(name string) [][]byte {
 			var out []sdk.Msg
 			for _, ch := range chains {
 				q := turnstoneQueue(ch)
-				ms, _ := ck.GetMessagesForRelaying(ctx, q, c.val(v).ValAddr)
+				ms := newest(ck.GetMessagesForRelaying(ctx, q, c.val(v).ValAddr))
 				for _, m := range ms {
 					if m.GetPublicAccessData() != nil || m.GetErrorData() != nil {
 						continue
@@ -271,7 +288,7 @@ func (c *chain) tpl(name string) [][]byte {
 			var out []sdk.Msg
 			for _, ch := range chains {
 				q := turnstoneQueue(ch)
-				ms, _ := ck.GetMessagesForAttesting(ctx, q, c.val(v).ValAddr)
+				ms := newest(ck.GetMessagesForAttesting(ctx, q, c.val(v).ValAddr))
 				for _, m := range ms {
 					pad := m.GetPublicAccessData()
 					if pad == nil {
@@ -288,12 +305,15 @@ func (c *chain) tpl(name string) [][]byte {
 			}
 			return out
 		})
-	case "attesterr", "attestsplit":
+	case "attesterr", "attestsplit", "attest0":
 		perVal(func(v int, a *env.Account) []sdk.Msg {
 			var out []sdk.Msg
+			if name == "attest0" && v != 0 {
+				return nil
+			}
 			for _, ch := range chains {
 				q := turnstoneQueue(ch)
-				ms, _ := ck.GetMessagesForAttesting(ctx, q, c.val(v).ValAddr)
+				ms := newest(ck.GetMessagesForAttesting(ctx, q, c.val(v).ValAddr))
 				for _, m := range ms {
 					text := "execution reverted"
 					if name == "attestsplit" {
@@ -324,7 +344,7 @@ func (c *chain) tpl(name string) [][]byte {
 				case "balsplit":
 					q = balancesQueue(ch)
 				}
-				ms, _ := ck.GetMessagesForAttesting(ctx, q, c.val(v).ValAddr)
+				ms := newest(ck.GetMessagesForAttesting(ctx, q, c.val(v).ValAddr))
 				for _, m := range ms {
 					var proof gogoproto.Message
 					switch name {
@@ -356,6 +376,15 @@ func (c *chain) tpl(name string) [][]byte {
 			}
 			return out
 		})
+	case "unbondall":
+		a := c.valAcc(3)
+		out = append(out, c.sign(a, stakingtypes.NewMsgUndelegate(a.Bech32(), c.val(3).ValAddr.String(), sdk.NewCoin(env.BondDenom, sdk.TokensFromConsensusPower(c.val(3).Power, sdk.DefaultPowerReduction)))))
+	case "rejoin":
+		a := c.valAcc(3)
+		m, err := stakingtypes.NewMsgCreateValidator(c.val(3).ValAddr.String(), c.val(3).Cons.PubKey(), sdk.NewInt64Coin(env.BondDenom, 8_000_000),
+			stakingtypes.Description{Moniker: "v3-again"}, stakingtypes.NewCommissionRates(math.LegacyNewDecWithPrec(1, 1), math.LegacyNewDecWithPrec(2, 1), math.LegacyNewDecWithPrec(1, 2)), math.OneInt())
+		must(err)
+		out = append(out, c.sign(a, m), c.sign(a, &valsettypes.MsgKeepAlive{Metadata: metaOf(a), PigeonVersion: "v2.4.0"}))
 	case "newval":
 		// user 2 becomes a validator (bonded from the next block on, in no snapshot before the next build)
 		u := c.user(2)
@@ -397,7 +426,7 @@ func (c *chain) tpl(name string) [][]byte {
 			var out []sdk.Msg
 			for _, ch := range chains {
 				q := balancesQueue(ch)
-				ms, _ := ck.GetMessagesForAttesting(ctx, q, c.val(v).ValAddr)
+				ms := newest(ck.GetMessagesForAttesting(ctx, q, c.val(v).ValAddr))
 				for _, m := range ms {
 					cm, err := m.ConsensusMsg(e.App.AppCodec())
 					if err != nil {
@@ -423,7 +452,7 @@ func (c *chain) tpl(name string) [][]byte {
 			var out []sdk.Msg
 			for _, ch := range chains {
 				q := refblockQueue(ch)
-				ms, _ := ck.GetMessagesForAttesting(ctx, q, c.val(v).ValAddr)
+				ms := newest(ck.GetMessagesForAttesting(ctx, q, c.val(v).ValAddr))
 				for _, m := range ms {
 					p, err := codectypes.NewAnyWithValue(&evmtypes.ReferenceBlockAttestationRes{BlockHeight: 6000, BlockHash: "0x" + hex.EncodeToString(crypto.Keccak256([]byte("ref")))})
 					must(err)
